@@ -104,10 +104,11 @@ ExpectedResp(pm) ==
     [] pm.cmd \in {"open_run", "close_run"} -> {"str"}
     [] pm.cmd \in {"create", "save", "drop", "checkpoint", "clear_checkpoint", "null", "sleep", "monitor", "unmonitor", "pause", "stop"} -> {"None"}
     [] pm.cmd = "read" -> IF pm.obj \in DOMAIN ReadVal THEN {ReadVal[pm.obj]} ELSE {}
-    [] pm.cmd \in {"set", "trigger", "kickoff", "complete"} -> {"status"}
+    [] pm.cmd \in {"set", "trigger", "kickoff", "complete", "prepare"} -> {"status"}
     [] pm.cmd = "collect" -> IF pm.obj \in Flyers THEN {"seq:" \o ToString(FlyN[pm.obj])} ELSE {}
     [] pm.cmd = "wait" -> {"bool:True", "bool:False"}
     [] pm.cmd \in {"stage", "unstage"} -> {"seq:0", "seq:1"}
+    [] pm.cmd = "declare_stream" -> {"seq:3"}
     [] pm.cmd = "rewindable" -> {"bool:True", "bool:False"}
     [] OTHER -> {}
 
